@@ -59,6 +59,16 @@ def nows(s):
     return "".join(s.split())
 
 
+def pred(ty, tr):
+    """The predicate inferred for a formatted generic field: on the field's type - on its referent if the type is a reference
+    (`&'a T: Debug` next to another bound on `T` would take over the resolution of `&'x T: Debug` for every lifetime), and none at
+    all for Pointer on a reference, which every reference implements.  Returns the whitespace-free predicate or None."""
+    peeled = re.sub(r"^(?:&\s*(?:'\w+\s+)?(?:mut\s+)?)+", "", ty)
+    if peeled != ty and tr == "Pointer":
+        return None
+    return nows("%s : derive_more :: core :: fmt :: %s" % (peeled, tr))
+
+
 def where_preds(out):
     """Predicates of the first impl's where-clause that mention a type parameter, whitespace-free."""
     m = re.search(r" where (.*?) \{ (?:# \[inline\] )?fn fmt", out)
@@ -139,7 +149,7 @@ def build_attr(fields, user_where_ok=True):
                 ubounds.append("%s: ::core::fmt::%s" % (f.ty, f.tr))
             continue
         if f.generic:
-            model.add(nows("%s : derive_more :: core :: fmt :: %s" % (f.ty, f.tr)))
+            model.add(pred(f.ty, f.tr))
     # positional args must precede named ones
     pos = [a for a in args if " = " not in a]
     named = [a for a in args if " = " in a]
@@ -163,7 +173,7 @@ def make_item(derive, container, named, fields, level, own_where=False):
     attr_args = '"%s"%s' % (lit_s, (", " + ", ".join(a2)) if a2 else "")
     ub = "".join(" #[%s(bound(%s))]" % (attr, u) for u in u2)
     model = set(m2) | {nows(u.replace("::core::fmt::", ":: core :: fmt :: ")) for u in u2}
-    model = {nows(p) for p in model}
+    model = {nows(p) for p in model if p is not None}
     fdecl = ", ".join(("%s: %s" % (f.name, f.ty)) if named else f.ty for f in fields)
     body = ("{ %s }" % fdecl) if named else ("(%s)" % fdecl)
     # the type's own where-clause (its predicates must be kept next to the inferred ones)
@@ -204,9 +214,9 @@ def debug_implicit_item(named, fields, fattrs, own_where=False):
             a = '#[debug("%s")] ' % lit
             for j, tr in refs:
                 if fields[j].generic:
-                    model.add(nows("%s : derive_more :: core :: fmt :: %s" % (fields[j].ty, tr)))
+                    model.add(pred(fields[j].ty, tr))
         elif f.generic:
-            model.add(nows("%s : derive_more :: core :: fmt :: Debug" % f.ty))
+            model.add(pred(f.ty, "Debug"))
         parts.append(a + (("%s: %s" % (f.name, f.ty)) if named else f.ty))
     body = ("{ %s }" % ", ".join(parts)) if named else ("(%s)" % ", ".join(parts))
     wc = ""
@@ -323,8 +333,8 @@ def run(chk, tier):
                 gens = (["'a"] if "'a" in f.ty else []) + ([f.param + ": Tr" if form in ("qassoc", "assoc") else f.param] if f.generic else [])
                 gdecl = "<%s>" % ", ".join(gens) if gens else ""
                 body = ("{ %s: %s }" % (f.name, f.ty)) if named else "(%s)" % f.ty
-                own = {nows("%s : derive_more :: core :: fmt :: %s" % (f.ty, derive))} if f.generic else set()
-                dbg = {nows("%s : derive_more :: core :: fmt :: Debug" % f.ty)} if f.generic else set()
+                own = {pred(f.ty, derive)} if f.generic else set()
+                dbg = {pred(f.ty, "Debug")} if f.generic else set()
                 a = ATTR[derive]
                 variants = [
                     ("implicit/struct", "struct S%s %s%s" % (gdecl, body, "" if named else ";"), own),
@@ -387,7 +397,7 @@ def run(chk, tier):
                 for lit, args, refs in star_family:
                     fields = [Field(i, fs[i], "none", "Display", named) for i in range(2)]
                     names = {"n0": fields[0].name, "n1": fields[1].name}
-                    model = {nows("%s : derive_more :: core :: fmt :: %s" % (fields[j].ty, tr)) for j, tr in refs if fields[j].generic}
+                    model = {pred(fields[j].ty, tr) for j, tr in refs if fields[j].generic}
                     gens = [f.param + ": Tr" if f.form in ("qassoc", "assoc") else f.param for f in fields if f.generic]
                     if any("'a" in f.ty for f in fields):
                         gens = ["'a"] + gens
@@ -408,6 +418,7 @@ def run(chk, tier):
               chk.violation("in-process: supported generic input %s (%s)" % (r["k"], kind), item, r.get("msg", "")[:300] + " " + r.get("loc", ""))
               continue
           got = {nows(p) for p in r["where"]}
+          model = {m for m in model if m is not None}
           if got == model:
               chk.outcome("A-agree/%s/%d-bounds" % (kind, len(model)))
               continue
@@ -482,6 +493,19 @@ def run(chk, tier):
             ty = "S<i32, NoFmt>" if "<T, U>" in item else "S<i32>"
             mod = "use super::*;\npub trait Own { type Out; }\nmacro_rules! IdTy { ($t:ty) => { $t } }\n#[derive(derive_more::%s)]\n%s\n%s\npub fn run(r: &mut R) { %s::<%s>(); r.check(\"impl available\", true); }" % (derive, item, extra, fn, ty)
             cases.append(Case("c%d" % len(cases), mod, meta={"src": "#[derive(%s)] %s %s" % (derive, item, extra), "inst": ty}))
+    # fields SHARING a parameter, one of them behind a reference (the forms above give every field a parameter of its own)
+    for derive, item, ty in (
+            ("Debug", "struct S<'a, T> { old: &'a T, new: T }", "S<'static, i32>"),
+            ("Debug", "struct S<'a, 'b, T>(&'a T, &'b T);", "S<'static, 'static, i32>"),
+            ("Debug", "enum S<'a, T> { A(T), B(&'a T), C { x: &'a mut T, y: Vec<T> } }", "S<'static, i32>"),
+            ("Debug", "struct S<'a, T>(Vec<T>, &'a Vec<T>, &'a [T]);", "S<'static, i32>"),
+            ("Display", "#[display(\"{old} -> {new}\")] struct S<'a, T> { old: &'a T, new: T }", "S<'static, i32>"),
+            ("Display", "#[display(\"{_0} {_1}\")] struct S<'a, 'b, T>(&'a T, &'b &'a T);", "S<'static, 'static, i32>"),
+            ("Display", "enum S<'a, T> { #[display(\"{_0}\")] A(T), #[display(\"{_0}\")] B(&'a T), #[display(\"{x}{y:?}\")] C { x: &'a mut T, y: &'a T } }", "S<'static, i32>"),
+            ("Display", "#[display(\"{a:p} {b:p} {c}\")] struct S<'a, 'b, T> { a: &'a T, b: &'b T, c: T }", "S<'static, 'static, i32>")):
+        fn = "assert_impl" if derive == "Display" else "assert_impl_debug"
+        mod = "use super::*;\n#[derive(derive_more::%s)]\n%s\npub fn run(r: &mut R) { %s::<%s>(); r.check(\"impl available\", true); }" % (derive, item, fn, ty)
+        cases.append(Case("c%d" % len(cases), mod, meta={"src": "#[derive(%s)] %s" % (derive, item), "inst": ty}))
     # recursive generic types: the bound for the derived trait on a field type naming the deriving type itself can never be resolved
     for derive, item, ty in (
             ("Display", 'enum S<T> { Lit(T), #[display("-{_0}")] Neg(Box<S<T>>), #[display("({_0} + {_1})")] Add(Box<S<T>>, Box<S<T>>) }', "S<i32>"),
